@@ -92,7 +92,11 @@ def run_container(ctx, prop: str, cls: str) -> Result:
     for name, fi in ctx.methods(cls).items():
         if name in RAW_SETTERS:
             continue
-        (mutators if name in EXPECTED_MUTATORS else queries).append(name)
+        if name in EXPECTED_MUTATORS:
+            mutators.append(name)
+        elif not name.startswith("_") or (name.startswith("__") and name.endswith("__")):
+            # private helpers are judged through the public methods that call them (check_pure follows callees)
+            queries.append(name)
     for name in sorted(queries):
         with res.guard("check_purectx, eff, res, fcls.name, rootsself,"):
             check_pure(ctx, eff, res, f"{cls}.{name}", roots=("self",))
